@@ -20,7 +20,27 @@ class TaskError(ValueError):
     pass
 
 
-def task(i, gate_dir, fail, equilibrium=None, psi=None, f_R=None, f_Z=None, scale=1):
+def make_exception(kind, i):
+    """what a failing task raises: a module-level class (picklable by name), a class defined inside a function (as mesh.followPerpendicular's
+    MaxIterException: pickle cannot send it between processes), an exception carrying an unpicklable attribute, or one with a required extra argument"""
+    if kind == "local-class":
+        class LocalError(Exception):
+            pass
+        return LocalError(f"task {i} failed")
+    if kind == "lambda-attribute":
+        e = TaskError(f"task {i} failed")
+        e.callback = lambda: None
+        return e
+    if kind == "two-arguments":
+        class NeedsTwo(Exception):
+            def __init__(self, a, b):
+                super().__init__(a)
+                self.b = b
+        return NeedsTwo(f"task {i} failed", 2)
+    return TaskError(f"task {i} failed")
+
+
+def task(i, gate_dir, fail, equilibrium=None, psi=None, f_R=None, f_Z=None, scale=1, exc="module-class"):
     gate = os.path.join(gate_dir, f"go_{i}")
     t0 = time.time()
     while not os.path.exists(gate):
@@ -29,7 +49,7 @@ def task(i, gate_dir, fail, equilibrium=None, psi=None, f_R=None, f_Z=None, scal
         time.sleep(0.002)
     open(os.path.join(gate_dir, f"done_{i}"), "w").close()
     if fail:
-        raise TaskError(f"task {i} failed")
+        raise make_exception(exc, i)
     return [i, i * i * scale, psi]
 
 
@@ -42,13 +62,13 @@ def wait_for(path, timeout):
     return True
 
 
-def one_call(pm, n, order, fail, timeout):
+def one_call(pm, n, order, fail, timeout, exc="module-class"):
     gate_dir = tempfile.mkdtemp(prefix="c13_", dir=os.environ.get("C13_TMP", "/tmp"))
     box = {}
 
     def call():
         try:
-            box["obs"] = ["ok", pm(task, [(i, gate_dir, i in fail) for i in range(n)], scale=3)]
+            box["obs"] = ["ok", pm(task, [(i, gate_dir, i in fail) for i in range(n)], scale=3, exc=exc)]
         except BaseException as e:
             box["obs"] = ["exc", type(e).__name__, str(e)]
 
@@ -81,7 +101,7 @@ def main():
         pm = ParallelMap(sc["np"], equilibrium=FakeEq())
         obs = []
         for call in sc["calls"]:
-            o = one_call(pm, call["n"], call["order"], set(call["fail"]), sc.get("timeout", 6))
+            o = one_call(pm, call["n"], call["order"], set(call["fail"]), sc.get("timeout", 6), call.get("exc", "module-class"))
             obs.append(o)
             if o == ["timeout"]:
                 break
